@@ -495,6 +495,13 @@ func (p *Packer) Unpack(r io.Reader, dst string) error {
 			continue
 		}
 
+		// A pax extended header describes other entries and has no file of
+		// its own: nothing is created for its name, not even the directory
+		// part of it (pax names global headers "$TMPDIR/GlobalHead.%p.%n").
+		if header.Typeflag == tar.TypeXGlobalHeader || header.Typeflag == tar.TypeXHeader {
+			continue
+		}
+
 		info, err := unpackinfo.NewUnpackInfo(dst, header)
 		if err != nil {
 			return &IllegalSlugError{Err: err}
